@@ -68,7 +68,7 @@ def block_matrix_case(r, b, nb, mb, kind):
 
 def view_cases(tier, seed):
     r = random.Random(seed * 1000 + 17)
-    N = 40 if tier == "quick" else 400
+    N = 120 if tier == "quick" else 600
     out = []
     def add(op, payload): out.append("v%d %s %s" % (len(out), op, payload))
     for it in range(N):
@@ -95,7 +95,7 @@ def view_cases(tier, seed):
 
 def block_cases(tier, seed, prefix="b"):
     r = random.Random(seed * 1000 + 13)
-    N = 60 if tier == "quick" else 500
+    N = 150 if tier == "quick" else 800
     out = []
     def add(op, payload): out.append("%s%d %s %s" % (prefix, len(out), op, payload))
     for it in range(N):
@@ -127,7 +127,7 @@ def complex_cases(tier, seed, prefix="z"):
 
 def solve_cases(tier, seed):
     r = random.Random(seed * 1000 + 18)
-    N = 30 if tier == "quick" else 250
+    N = 80 if tier == "quick" else 400
     out = []
     for it in range(N):
         n = r.choice([1, 2, 3, 4, 5, 6, 8, 10]) if it % 6 else r.randint(11, 24)
@@ -144,7 +144,7 @@ def solve_cases(tier, seed):
 def pc_cases(tier, seed):
     """pairs (shuffled, sorted) of the same matrix for each preconditioner class"""
     r = random.Random(seed * 1000 + 19)
-    N = 6 if tier == "quick" else 40
+    N = 30 if tier == "quick" else 120
     out = []   # (id, kind, driver, line_shuffled, line_sorted, meta)
     # the refutation witness of Properties_C17.C17_unsorted_ilu0_scan_refuted: tridiagonal matrix,
     # row 1 listed as (2,1,0) and as (1,0,2)
@@ -199,6 +199,8 @@ def classify(fail):
     """signature of a row-order failure: the class whose entry point took the user matrix, the
     component it hands the unsorted rows to, and whether the rows of the input were unsorted"""
     m = fail.get("meta") or {}
+    if fail.get("group") == "dims":
+        return dict(group="dims", adapter=m.get("adapter"), rectangular=m.get("rectangular"))
     if fail.get("group") != "row-order": return {}
     site, comp = kind_site(m.get("kind", ""))
     return dict(group="row-order", site=site, component=comp, input_rows_unsorted=True)
@@ -239,12 +241,33 @@ def run(ctx, cases_override=None):
     fails += oracle_run(ctx, ol, "block formulation represents the same operator: block spmv = scalar spmv (C13_block_spmv, C17 block adapter)", lambda cid: byid[cid])
     # ---- third-party containers (double, dyadic)
     tp = third_party_cases(tier, seed)
-    f, _, _ = diff_run(ctx, "adapters3p", tp, theorem="Eigen / uBlas adapters expose the source matrix (correspondence only)")
+    f, impl3, _ = diff_run(ctx, "adapters3p", tp, theorem="Eigen / uBlas adapters expose the source matrix (correspondence only)")
     fails += f
+    fails += dims_oracle(ctx, tp, impl3)
     # ---- S: solves through reorder / scaled_problem
     fails += run_solves(ctx, solve_cases(tier, seed))
     # ---- P: row order
     fails += run_pc(ctx)
+    return fails
+
+
+def dims_oracle(ctx, lines, impl):
+    """rows / cols / nonzeros reported through the adapter = those of the source container"""
+    fails = []
+    for l in lines:
+        cid, op, payload = l.split(" ", 2)
+        toks = payload.split(); n, m = int(toks[0]), int(toks[1])
+        k = 2; nnz = 0
+        for _ in range(n):
+            cnt = int(toks[k]); nnz += cnt; k += 1 + 2 * cnt
+        o = (impl.get(cid) or "").split()
+        ctx["stats"]["oracle_checks"] += 1
+        if len(o) < 3 or o[:3] != [str(n), str(m), str(nnz)]:
+            ctx["stats"]["oracle_fail"] += 1
+            fails.append(dict(kind="counterexample", group="dims", meta=dict(adapter=op, rectangular=(n != m)),
+                              case=l, impl=impl.get(cid), model="%d %d %d ..." % (n, m, nnz), op=op, size=len(l),
+                              oracle=dict(statement="backend::rows/cols/nonzeros(adapter) = source", expected=[n, m, nnz], got=o[:3]),
+                              theorem="C17: rows, columns and non-zero count seen through the adapter agree with the source matrix (%s)" % op))
     return fails
 
 
@@ -280,6 +303,21 @@ def run_solves(ctx, lines):
     return fails
 
 
+def run_all(ctx, exe, lines, timeout=1200):
+    """run_driver, re-running the cases that were left unanswered because an earlier case of the
+    same shard killed the driver (abort / assert); every case ends up with an output"""
+    out = {}
+    todo = list(lines)
+    for _ in range(40):
+        if not todo: break
+        res = ctx["run_driver"](exe, todo, timeout=timeout)
+        out.update(res)
+        nxt = [l for l in todo if l.split(" ", 1)[0] not in res]
+        if len(nxt) == len(todo): break
+        todo = nxt
+    return out
+
+
 def run_pc(ctx, replay=None):
     tier, seed = ctx["tier"], ctx["seed"]
     fails = []
@@ -295,7 +333,7 @@ def run_pc(ctx, replay=None):
         sub = [c for c in cs if c[2] == drv]
         if not sub: continue
         la = ["%sa %s" % (c[0], c[3]) for c in sub]; lb = ["%sb %s" % (c[0], c[4]) for c in sub]
-        impl = ctx["run_driver"](ctx["cpp"][drv], la + lb, timeout=1200)
+        impl = run_all(ctx, ctx["cpp"][drv], la + lb)
         account(ctx, la + lb, impl)
         # implementation vs model where the base model has the smoother (faithful: no sorting in
         # as_preconditioner); "UNMODELLED" kinds are compared implementation-vs-implementation only
